@@ -1186,6 +1186,11 @@ func (s *ObjectStorage) DeleteOldObjectPackAndIndex(h plumbing.Hash, t time.Time
 	if err := s.dir.DeleteOldObjectPackAndIndex(h, t); err != nil {
 		return err
 	}
+	// Objects handed out of a pack read their content lazily from that pack;
+	// cached ones that belong to the pack just deleted would fail on their
+	// next Reader() although the object now lives in another pack.
+	s.objectCache.Clear()
+
 	simhook.BeforeLock(&s.muI)
 	s.muI.Lock()
 	defer s.muI.Unlock()
